@@ -198,13 +198,36 @@ def finish(a, ev, t0, violations, undecided, known=None, record=False):
     os.makedirs(os.path.join(driver.OUT, 'replay'), exist_ok=True)
     lines = []
     nviol = 0
-    for v in violations:
+    # refutation search on the real code: only when something failed or could not be decided; never on a clean pass
+    refuted = None
+    reps = {}
+    for i, v in enumerate(violations):
+        if not match_known(known, a.prop, v):
+            reps[i] = replay.make_replay(a.prop, v)
+    if (undecided and not violations) or any(not r.get('confirmed_on_real_code') for r in reps.values()):
+        try:
+            from vx import refute
+            refuted = refute.run(a.prop)
+        except Exception:
+            refuted = None
+    if refuted and not violations:
+        v = dict(unit='refuter', obligation=refuted['function'].replace(':', '_').replace(',', '_').replace('{', '').replace('}', '').replace('=', '_'), errors=[dict(msg='real code disagrees with the reference on a structured input (units undecided: ' + '; '.join(undecided)[:300] + ')', line=0, file='', fn=refuted['function'])], ring=None)
+        violations = [v]
+        reps[0] = dict(property=a.prop, unit='refuter', failed_obligation=refuted['function'], verifier_output=[dict(msg=u[:500]) for u in undecided], confirmed_on_real_code=True, **{k: refuted[k] for k in ('input', 'actual', 'expected', 'command')})
+        undecided = []
+    elif refuted:
+        for i, r in reps.items():
+            if not r.get('confirmed_on_real_code'):
+                r.update(confirmed_on_real_code=True, refuter_finding=refuted,
+                         note=(r.get('note', '') + ' | a failing input of the real code was found by the structured refutation search (vx/refute.py)').strip(' |'))
+                break
+    for i, v in enumerate(violations):
         kf = match_known(known, a.prop, v)
         if kf:
             lines.append(f"KNOWN-FINDING: property={a.prop} {kf}")
             continue
         path = os.path.join(driver.OUT, 'replay', f"{a.prop}-{v['unit']}-{v['obligation'].replace('::', '_')}.json")
-        rep = replay.make_replay(a.prop, v)
+        rep = reps.get(i) or replay.make_replay(a.prop, v)
         json.dump(rep, open(path, 'w'), indent=1)
         suffix = '' if rep.get('confirmed_on_real_code') else ' no-failing-input-found'
         lines.append(f"VIOLATION property={a.prop} replay={path}{suffix}")
